@@ -21,8 +21,17 @@ class ScriptedCriteria:
         self.schedule, self.salt, self.k = schedule, salt, 0
         self.calls = 0
 
+    # the protocol says "bool"; other truthy / falsy values (0/1, numpy booleans, None) must be routed the same way
+    TRUTHY = (True, 1, np.True_)
+    FALSY = (False, 0, np.False_, None)
+
     def evaluate(self, context):
         k = self.k
+        ok = self.decide(k)
+        pool = self.TRUTHY if ok else self.FALSY
+        return pool[(k + self.salt) % len(pool)]
+
+    def decide(self, k):
         self.k += 1
         self.calls += 1
         s = self.schedule
